@@ -8,6 +8,7 @@ CONSTANTS
   Cfgs <- TCfgs
   Cfg0 <- TCfg0
   Bud0 <- TBud
+  OwnEntryCheck = TRUE
 INVARIANTS HeartbeatFresh
 PROPERTIES OwnEntryOnly StateEdges RefusedUntouched HeartbeatMonotone RegisteredOnce ActivationTokens ReadyImpliesActive KeepsIdentity ReRegistersFresh
 POSTCONDITION Accepted
